@@ -612,6 +612,7 @@ def monHs (isServer : Bool) (lines : Array String) (cbSpec : String) (statusLine
   let mut readsAfterTrip := 0
   let mut attackReported := false
   let mut attackWhileQuiet := false
+  let mut trippedNotReported := false   -- the guard's bound was passed and the call ended with something else
   let mut failedOnPartial : Option String := none
   for l in lines do
     match words l with
@@ -645,8 +646,11 @@ def monHs (isServer : Bool) (lines : Array String) (cbSpec : String) (statusLine
     | "wire" :: w :: _ =>
       if !hsDone then wire := wire ++ unhex w
       if finishing then hsDone := true
-    | "res" :: "hs" :: "ok" :: _ => hsOk := true; finishing := true
+    | "res" :: "hs" :: "ok" :: _ =>
+      if guardTripped && !finishing then trippedNotReported := true
+      hsOk := true; finishing := true
     | "res" :: "hs" :: "err" :: e =>
+      if e.head? != some "AttackAttempt" && guardTripped && !finishing then trippedNotReported := true
       if e.head? == some "AttackAttempt" && !finishing then
         attackReported := true
         if !guardTripped then attackWhileQuiet := true
@@ -671,6 +675,7 @@ def monHs (isServer : Bool) (lines : Array String) (cbSpec : String) (statusLine
     out := out ++ ["mon C17 FAIL continued-after-wouldblock", "mon C07 FAIL handshake-continued-after-wouldblock"]
   -- C17: the guard bounds what a reading stage consumes
   if readsAfterTrip > 0 then out := out ++ ["mon C17 FAIL attack-guard-did-not-stop-the-reading"]
+  else if trippedNotReported then out := out ++ ["mon C17 FAIL attack-guard-tripped-but-not-reported"]
   else if attackWhileQuiet then out := out ++ ["mon C17 FAIL attack-reported-although-within-bounds"]
   else if reads > 513 || lastLen > 65536 + 4096 then out := out ++ ["mon C17 FAIL guard-bound-exceeded"]
   else out := out ++ ["mon C17 ok"]
@@ -725,7 +730,7 @@ def monHs (isServer : Bool) (lines : Array String) (cbSpec : String) (statusLine
               out := out ++ ["mon C15 FAIL rejection-response-not-written-in-full"]
             else out := out ++ ["mon C15 ok"]
       | _ => out := out ++ ["mon C15 ok"]
-    else if valid && !rejecting && finishing && !(lines.any fun l => l.startsWith "res hs err Io." || l.startsWith "res hs err Protocol.HandshakeIncomplete" || l.startsWith "res hs err AttackAttempt" || l.startsWith "res hs err Protocol.Custom") then
+    else if valid && !rejecting && finishing && !(lines.any fun l => l.startsWith "res hs err Io." || l.startsWith "res hs err Protocol.HandshakeIncomplete" || (l.startsWith "res hs err AttackAttempt" && !attackWhileQuiet) || l.startsWith "res hs err Protocol.Custom") then
       out := out ++ ["mon C15 FAIL valid-request-refused"]
     else out := out ++ ["mon C15 ok"]
   else
